@@ -229,6 +229,7 @@ func runC01(r *Run) {
 		addEval(r, &c, "nested-quantifiers")
 	}
 	c01IfaceListBoundaries(r)
+	c01Sizes(r)
 	// the same logical document in several Go representations must give the same outcome
 	reps := 300
 	if r.Tier == "thorough" {
